@@ -34,15 +34,14 @@ class Result:
 
 
 def find_function(tu, c):
-    cands = tu.find_funcs(c.name, c.sig, c.targs)
+    cands = tu.find_funcs(c.name, c.sig, c.targs, c.sig_not)
     if not cands:
         # wildcard class template arguments
-        import fnmatch
         for q, fs in tu.funcs.items():
-            if fnmatch.fnmatchcase(q, c.name):
+            if S.name_matches(c.name, q):
                 for f in fs:
                     t = f.get('type', {}).get('qualType', '')
-                    if c.sig is not None and c.sig not in t:
+                    if not S.sig_ok(c, t):
                         continue
                     if c.targs is not None and list(c.targs) != f.get('_targs'):
                         continue
@@ -78,18 +77,25 @@ def verify_function(c, seed=0, timeout_ms=20000, only_labels=None):
             res.status = 'unsupported'
             res.message = 'function %s (sig %s) not found in %s' % (c.name, c.sig, c.tu)
             return res
-        if len(cands) > 1:
-            # same definition seen through several template contexts: take the first, report
-            pass
-        fnode = cands[0]
-        res.func = fnode.get('_qual')
-        res.file = fnode.get('_file')
-        res.line = fnode.get('_line')
-        for si, scen in enumerate(c.scenarios):
+        seen = set()
+        uniq = []
+        for f in cands:
+            k = (f.get('_qual'), f['type']['qualType'], tuple(f.get('_targs') or ()))
+            if k not in seen:
+                seen.add(k)
+                uniq.append(f)
+        res.func = ', '.join(sorted({f.get('_qual') for f in uniq}))
+        res.file = uniq[0].get('_file')
+        res.line = uniq[0].get('_line')
+        res.instances = len(uniq)
+        for fnode in uniq:
+          for si, scen in enumerate(c.scenarios):
             ex = Exec(tu, fnode, c, scen, timeout_ms=timeout_ms, seed=seed, only_labels=only_labels)
             ex.known = KNOWN
+            if len(uniq) > 1:
+                ex.fname = c.key + '{' + fnode.get('_qual') + ' ' + fnode['type']['qualType'] + '}'
             if len(c.scenarios) > 1:
-                ex.fname = c.key + '#' + scen.get('name', str(si))
+                ex.fname = ex.fname + '#' + scen.get('name', str(si))
             run_scenario(ex, fnode, c, scen)
             res.obligations.extend(ex.obligations)
             res.paths += ex.npaths
@@ -109,7 +115,7 @@ def verify_function(c, seed=0, timeout_ms=20000, only_labels=None):
         res.message = 'spec binding: ' + str(e)
     except Exception as e:
         res.status = 'error'
-        res.message = '%s: %s\n%s' % (type(e).__name__, e, traceback.format_exc()[-1500:])
+        res.message = '%s: %s\n%s' % (type(e).__name__, e, traceback.format_exc()[-3500:])
     res.secs = time.time() - t0
     return res
 
@@ -175,6 +181,11 @@ def run_scenario(ex, fnode, c, scen):
             if sh[0] == 'ref':
                 if alias:
                     tgt = this_path if alias == 'this' else names[alias]
+                    tv = ex.read(tgt)
+                    if (isinstance(tv, SVal) and sh[1][0] == 'struct' and tv.cls != sh[1][1]) or \
+                            (isinstance(tv, SVal) != (sh[1][0] == 'struct')):
+                        ex.npaths -= 1
+                        return   # aliasing impossible: different types
                     ex.store[p['id']] = RefVal(tgt)
                 else:
                     v = sym_input(ex, sh[1], nm)
@@ -212,6 +223,9 @@ def run_scenario(ex, fnode, c, scen):
         for i, r in enumerate(c.requires):
             lab, e = r if isinstance(r, tuple) else ('req%d' % i, r)
             ex.assume(S.spec_eval(e, env_pre, extra))
+        for e in c.body_assumes:
+            ex.assume(S.spec_eval(e, env_pre, extra))
+            ex.assumed.add('definitional axiom: ' + e)
         if first:
             first = False
             # vacuity: the precondition must be satisfiable
